@@ -94,7 +94,7 @@ def functional_entries(rng, dtypes):
         other_dt = np.float32 if np.dtype(dt) != np.float32 else np.float64
         oshape = other if other is not None else tuple(s + 1 for s in shape)
         ents.append(Entry(f"{name}/{np.dtype(dt).name}", "functional", lambda jit, mk=mk: mk(), calls,
-                          hist_for([(oshape, dt), (shape, other_dt), (oshape, other_dt)]), False, _rtol(dt), np.dtype(dt).name))
+                          hist_for([(oshape, dt), (shape, other_dt), (oshape, other_dt), (shape, dt)]), False, _rtol(dt), np.dtype(dt).name))
 
     def per_dtype(dt):
         add("L0Norm", lambda: F.L0Norm(), (3, 4), dt)
@@ -247,6 +247,26 @@ def operator_entries(rng, dtypes, heavy=True):
 
     for dt in dtypes:
         per_dtype(dt)
+
+    # scico.function.Function: evaluation, slice (-> Operator), join (-> Operator on a block array)
+    def per_dtype_fn(dt):
+        from scico import function
+        from scico.numpy import BlockArray
+
+        a = _arr(rng, (4,), dt)
+        b = _arr(rng, (4,), dt)
+
+        def mk(jit):
+            return function.Function(((4,), (4,)), output_shape=(4,), eval_fn=lambda u, w: u * w + 2.0 * u[::-1], input_dtypes=dt,
+                                     output_dtype=dt, **({} if jit is None else {"jit": jit}))
+
+        calls = [("eval", lambda o: (lambda u, w: o(u, w)), (a, b)),
+                 ("slice", lambda o: (lambda u: o.slice(0, b)(u)), (a,)),
+                 ("join", lambda o: (lambda ba: o.join()(ba)), (BlockArray([a, b]),))]
+        ents.append(Entry(f"Function/{np.dtype(dt).name}", "function", mk, calls, lambda o: [o(b, a), o.slice(1, a)(b)], True, _rtol(dt), np.dtype(dt).name))
+
+    for dt in dtypes:
+        per_dtype_fn(dt)
     if heavy:
         from scico.linop import xray
 
